@@ -152,6 +152,8 @@ type CTE struct {
 	Name    string
 	Columns []string
 	Query   *SelectStmt
+
+	recState int32 // cache: bit0 computed, bit1 right arm refers to Name, bit2 left arm refers to Name
 }
 
 func (*CTE) node() {}
@@ -222,6 +224,8 @@ type SelectStmt struct {
 	Limit      Expr
 	Offset     Expr
 	Values     [][]Expr // VALUES (...), (...) used as a query
+
+	aggState int32 // cache: 0 unknown, 1 no aggregates in select list/having/order by, 2 has aggregates
 }
 
 type SetClause struct {
@@ -367,10 +371,14 @@ type Star struct {
 type NumberLit struct {
 	Text string
 	Pos  int
+
+	val Value // parsed once (nil when Text is not an integer)
 }
 type StringLit struct {
 	Val string
 	Pos int
+
+	boxed Value // Val as a Value, boxed once
 }
 type NullLit struct{ Pos int }
 type BoolLit struct {
